@@ -1,6 +1,8 @@
 //! C02 copy of the X01 encoder (harness/src/bin/x01_morx/enc.rs): abstract morx program -> `morx`
 //! table bytes.  Differences from the original: lookup format 10 is also written with unit sizes 4
-//! and 8 and `upto` (prefix tables) is gone.
+//! and 8, `upto` (prefix tables) is gone, and the count / length fields of the headers can be
+//! overridden (program `n_chains`; chain `n_subs`, `n_feats`, `len`; subtable `len`) to write a table
+//! whose header lies about what follows.
 //!
 //! Layout of the TrueType Reference Manual, chapter 'morx': header (version, unused, nChains), chains
 //! (defaultFlags, chainLength, nFeatureEntries, nSubtables, feature entries, subtables, for version 3 the
@@ -264,7 +266,8 @@ pub fn subtable(sub: &Value, n: usize, sh: u32, lay: i64) -> Vec<u8> {
     };
     pad4(&mut body);
     let mut w = W::new();
-    w.u32(12 + body.len() as u32).u32(((int(&sub["cov"]) as u32) << 28) | t as u32).u32((int(&sub["flags"]) as u32) << sh);
+    let len = sub.get("len").map_or(12 + body.len() as u32, |v| int(v) as u32);
+    w.u32(len).u32(((int(&sub["cov"]) as u32) << 28) | t as u32).u32((int(&sub["flags"]) as u32) << sh);
     w.bytes(&body);
     w.done()
 }
@@ -284,7 +287,9 @@ pub fn morx(prog: &Value) -> Vec<u8> {
         }
         let feats = arr(&ch["feats"]);
         let mut w = W::new();
-        w.u32((int(&ch["def"]) as u32) << sh).u32(0).u32(feats.len() as u32).u32(subs.len() as u32);
+        let n_feats = ch.get("n_feats").map_or(feats.len() as u32, |v| int(v) as u32);
+        let n_subs = ch.get("n_subs").map_or(subs.len() as u32, |v| int(v) as u32);
+        w.u32((int(&ch["def"]) as u32) << sh).u32(0).u32(n_feats).u32(n_subs);
         for f in feats {
             // bits outside the 16-bit window are kept by every disable mask
             w.u16(int(&f["t"]) as u16).u16(int(&f["s"]) as u16).u32((int(&f["en"]) as u32) << sh).u32(((int(&f["dis"]) as u32) << sh) | !window);
@@ -306,12 +311,12 @@ pub fn morx(prog: &Value) -> Vec<u8> {
             }
         }
         let mut b = w.done();
-        let len = b.len() as u32;
+        let len = ch.get("len").map_or(b.len() as u32, |v| int(v) as u32);
         b[4..8].copy_from_slice(&len.to_be_bytes());
         chains.push(b);
     }
     let mut w = W::new();
-    w.u16(ver).u16(0).u32(chains.len() as u32);
+    w.u16(ver).u16(0).u32(prog.get("n_chains").map_or(chains.len() as u32, |v| int(v) as u32));
     for c in &chains {
         w.bytes(c);
     }
